@@ -2,6 +2,8 @@
    case : "<kind> <hex bytes> <tree dump | -> <queries | ->"
           kind t : the bytes are print_el of the tree (checked here with the extracted printer);
                    oracle c32_ok_tree = the result is exactly that tree and the exact find answers
+          kind m : the bytes are another rendering of the tree (markup and other characters written as a mix of
+                   named, decimal and hexadecimal references, chosen by the generator); same oracle
           kind b : arbitrary bytes; oracle c32_ok_bytes = a tree or a parse error
    impl result / model result: "T <dump> Q <answers>" | "E <hex what()>" | "SKIP xi:include" *)
 let nl_of_string (s : string) : n list =
@@ -71,9 +73,9 @@ let () = run_protocol (fun case impl ->
     let qs = if queries = "-" then [] else List.map parse_query (split_on ';' queries) in
     let m = string_of_nl (run_doc bytes qs) in
     let implb = nl_of_string impl in
-    if kind = "t" then begin
+    if kind = "t" || kind = "m" then begin
       let t = parse_tree tree in
-      if print_el t <> bytes then ("BAD-CASE bytes are not print_el of the tree", false, false)
+      if kind = "t" && print_el t <> bytes then ("BAD-CASE bytes are not print_el of the tree", false, false)
       else (m, c32_ok_tree t qs implb, c32_ok_tree t qs (nl_of_string m))
     end else if kind = "b" then
       (m, c32_ok_bytes implb, c32_ok_bytes (nl_of_string m))
